@@ -23,10 +23,11 @@ def hexValue (s : Bytes) : Option Nat := if s.isEmpty then none else s.foldl hex
 
 /-- RFC 7230 §4.1 (no extensions, no trailers): `chunked-body = *chunk last-chunk CRLF`,
 `chunk = chunk-size CRLF chunk-data CRLF` with `chunk-size > 0`; second index = the decoded payload.
-The size line is bounded by the documented line limit of the library (`Socket::readLine`, 16000 bytes). -/
+The size line has at most 8 digits (what the library's reader accepts since its chunk-size check: leading zeros
+beyond that are refused). -/
 inductive ChunkedBody : Bytes → Bytes → Prop
   | last : ChunkedBody [48, 13, 10, 13, 10] []
-  | chunk (sz d w b : Bytes) : hexValue sz = some d.length → sz.length ≤ 16000 → d ≠ [] → ChunkedBody w b →
+  | chunk (sz d w b : Bytes) : hexValue sz = some d.length → sz.length ≤ 8 → d ≠ [] → ChunkedBody w b →
       ChunkedBody (sz ++ [13, 10] ++ d ++ [13, 10] ++ w) (d ++ b)
 
 end Spec
@@ -90,7 +91,7 @@ theorem writeLoop_chunked_spec (blk : Nat) (hb : 0 < blk) (hb2 : blk < 214748364
 /-- one chunk with an arbitrary size line `sz` that `hexToInt` reads as the data length -/
 theorem readChunked_step_gen (rblk : Nat) (hr : 0 < rblk) (f : Nat) (i : Inp) (acc : List Bytes) (sz p tail : Bytes)
     (hi : Live i) (hp0 : 0 < p.length) (hp31 : p.length < 2147483648) (hnolf : ∀ c ∈ sz ++ [13], c ≠ 10)
-    (hlen : (sz ++ [13]).length ≤ 16001) (hval : hexToInt (sz ++ [13]) = p.length)
+    (hlen : (sz ++ [13]).length ≤ 16001) (hval : hexToInt (sz ++ [13]) = p.length) (hvalid : chunkLineValid (sz ++ [13]) = true)
     (hd : i.data = sz ++ crlf ++ p ++ crlf ++ tail) :
     ∃ bl : List Bytes, bl.reverse.flatten = p ∧
       readChunkedLoop rblk (f + 1) i 0 acc =
@@ -106,9 +107,8 @@ theorem readChunked_step_gen (rblk : Nat) (hr : 0 < rblk) (f : Nat) (i : Inp) (a
   · rw [readChunkedLoop]
     simp only [live_dead hi, Bool.false_eq_true, if_false]
     rw [hrl]
-    simp only []
+    simp only [hvalid, Bool.not_true, Bool.false_eq_true, if_false]
     rw [hval]
-    simp only [hp31, if_true]
     rw [heq]
     simp only []
     rw [advance_advance]
@@ -194,7 +194,7 @@ theorem hexchar_not_blank (c : UInt8) (h : (hexVal c).isSome) : isBlank c = fals
 
 /-- `hexToInt` reads any RFC chunk-size line (1*HEXDIG, either case, value below 2^32), followed by its CR -/
 theorem hexToInt_spec (sz : Bytes) (n : Nat) (hv : Spec.hexValue sz = some n) (hn : n < 4294967296) :
-    hexToInt (sz ++ [13]) = n ∧ (∀ c ∈ sz ++ [13], c ≠ 10) := by
+    hexToInt (sz ++ [13]) = n ∧ (∀ c ∈ sz ++ [13], c ≠ 10) ∧ (∀ c ∈ sz, (hexVal c).isSome = true) := by
   unfold Spec.hexValue at hv
   cases sz with
   | nil => simp at hv
@@ -247,7 +247,8 @@ theorem hexToInt_spec (sz : Bytes) (n : Nat) (hv : Spec.hexValue sz = some n) (h
               exact ih _ (fun c hc => hx c (List.mem_cons_of_mem _ hc))
         rw [this (c :: t) 0 hch, hloop]
       rw [hl]; exact Nat.mod_eq_of_lt hn
-    · intro x hx
+    · refine ⟨?_, fun x hx => by simpa using hch x hx⟩
+      intro x hx
       rcases List.mem_append.mp hx with h | h
       · exact hexchar_ne x (hch x h) 10 (by decide)
       · simp only [List.mem_singleton] at h; subst h; decide
@@ -272,9 +273,13 @@ theorem readChunked_rfc (rblk : Nat) (hr : 0 < rblk) : ∀ (w b : Bytes), Spec.C
     have hdl : 0 < d.length := List.length_pos_iff.mpr hd0
     have hwl : (sz ++ [13, 10] ++ d ++ [13, 10] ++ w').length = sz.length + 2 + d.length + 2 + w'.length := by
       simp; omega
-    obtain ⟨hval, hnolf⟩ := hexToInt_spec sz d.length hv (by simp only [List.length_append] at hb; omega)
+    obtain ⟨hval, hnolf, hhex⟩ := hexToInt_spec sz d.length hv (by simp only [List.length_append] at hb; omega)
     obtain ⟨bl1, hbl1, heq1⟩ := readChunked_step_gen rblk hr f0 i acc sz d (w' ++ rest) hi hdl (by simp only [List.length_append] at hb; omega) hnolf
       (by simp only [List.length_append, List.length_cons, List.length_nil]; omega) hval
+      (chunkLineValid_hex sz hhex (by
+          cases sz with
+          | nil => simp [Spec.hexValue] at hv
+          | cons a t => simp) hsz (by rw [hval]; simp only [List.length_append] at hb; omega))
       (by rw [hd]; simp [crlf, List.append_assoc])
     have hi' : Live (i.advance (sz.length + 2 + d.length + 2)) := hi
     have hd2 : (i.advance (sz.length + 2 + d.length + 2)).data = w' ++ rest := by
